@@ -33,7 +33,7 @@ def sim_job(profile, count, name=None, budget_ms=None):
 
     def replay(rep, path):
         return [exe, "replay", "--profile", rep.get("profile", profile), "--scenario-seed", str(rep["scenario_seed"]),
-                "--index", str(rep.get("index", 0)), "--verbose"]
+                "--index", str(rep.get("index", 0)), "--hook-seed", str(rep.get("hook_seed", 1)), "--verbose"]
 
     return {
         "name": name or f"vq-sim:{profile}x{count}",
@@ -130,6 +130,23 @@ PROPS = {
         "min_quick": {"evaluations": 900, "c03.frames_checked": 500_000, "c03.tight_stream_limit": 10_000, "c03.resets_checked": 1000},
         "min_thorough": {"evaluations": 30000, "c03.frames_checked": 10_000_000},
     },
+    "C04": {
+        "level": "exploration",
+        "rule": "each evaluation is one seeded end-to-end simulation. 21 of 24 scenario kinds: an honest s2n-quic peer whose packet interceptor "
+                "replaces the cleartext of ONE outgoing packet (after a random honest prefix) with frames breaking one transport rule - 19 "
+                "attacks (stream/connection data beyond the limit by 1 byte or 2^40, stream id beyond MAX_STREAMS by 0..1000, data beyond / "
+                "changed / undercut final size, STREAM on a send-only or unopened stream, MAX_STREAM_DATA / STOP_SENDING on a receive-only "
+                "stream, MAX_STREAMS > 2^60, malformed NEW_CONNECTION_ID, HANDSHAKE_DONE / NEW_TOKEN from a client, STREAM in Handshake space, "
+                "MAX_DATA in Initial space, CRYPTO beyond the buffer in Handshake space, RESET_STREAM beyond the stream limit) and 2 benign "
+                "controls exactly at a limit; both roles. 3 of 24: honest runs with hostile applications and lossy networks for the credit "
+                "bound. Non-trivial = the attack packet was authenticated by the victim, or MAX_* frames were checked; distinct = hash of "
+                "configuration x mechanisms observed.",
+        "assumptions": SIM_ASSUME + ["the attacker is an honest s2n-quic endpoint whose outgoing cleartext is rewritten before encryption; malformed headers are C05/C06, dishonest TLS is C14",
+                                     "frames for streams the victim has already closed are ignored by design and not used as attacks"],
+        "tiers": {"quick": [sim_job("C04", 960)], "thorough": [sim_job("C04", 19200)]},
+        "min_quick": {"evaluations": 900, "c04.attacks_delivered": 700, "c04.attacks_rejected": 600, "c04.controls_run": 60, "c04.max_stream_data_checked": 8000, "c04.max_data_checked": 6000, "c04.honest_runs": 100},
+        "min_thorough": {"evaluations": 18000, "c04.attacks_delivered": 14000},
+    },
     "C06": {
         "level": "exploration",
         "rule": "each evaluation is one seeded end-to-end simulation in which an attacker inside the network injects, once every connection is "
@@ -166,6 +183,20 @@ PROPS = {
         "min_quick": {"evaluations": 900, "c09.loss_declarations": 100_000, "c09.cc_calls_checked": 2_000_000},
         "min_thorough": {"evaluations": 30000, "c09.loss_declarations": 3_000_000},
     },
+    "C10": {
+        "level": "exploration",
+        "rule": "two engines. (a) component histories (vq-cc): CUBIC and BBRv2 driven through the CongestionController trait with seeded legal "
+                "histories (send / rtt update / ack / loss with persistent congestion and loss bursts / ECN / MTU change / discard, datagram "
+                "sizes 1200..9000) against a shadow of outstanding packets, checked after every call. (b) live gating (vq-sim): the proxy around "
+                "the real controllers of live connections records every call; each congestion-controlled send must happen with bytes in flight "
+                "below the window unless the packet_sent event names a PTO probe or the controller required a fast retransmission; window floor "
+                "(2 / 4 datagrams) and CUBIC monotonicity on loss/ECN are checked on every live call. Non-trivial = loss, persistent congestion, "
+                "MTU change or a send at the window limit occurred; distinct = hash of configuration x mechanisms observed.",
+        "assumptions": SIM_ASSUME + [],
+        "tiers": {"quick": [sim_job("C10", 640)], "thorough": [sim_job("C10", 16000)]},
+        "min_quick": {"evaluations": 600, "c10.sends_checked": 500_000, "c10.calls_checked": 800_000, "c10.sent_at_limit.pto-probe": 500, "c10.sent_at_limit.fast-retransmission": 1000},
+        "min_thorough": {"evaluations": 15000, "c10.sends_checked": 10_000_000},
+    },
     "C11": {
         "level": "exploration",
         "rule": "handshake-centred seeded simulations, three kinds by scenario index: (0) enumerated single and double drops of handshake "
@@ -180,6 +211,47 @@ PROPS = {
         "min_quick": {"evaluations": 900, "c11.unvalidated_datagrams_checked": 2500, "c11.probes_delivered": 3000,
                       "c11.probe_reply.stateless-reset-like": 500, "c11.client_initial_datagrams": 4000, "c11.runs_server_at_limit": 20},
         "min_thorough": {"evaluations": 23000, "c11.unvalidated_datagrams_checked": 60000},
+    },
+    "C13": {
+        "level": "exploration",
+        "rule": "each evaluation is one seeded end-to-end simulation with 1-3 clients, peer limits 2..8, handshake-id rotation on/off, half of them "
+                "long-lived (150-300 s virtual, keep-alive, connection-id lifetimes 60-100 s so ids expire and retire_prior_to is used), 0-4 "
+                "client address rebinds (forcing new ids into use), targeted loss of NEW_CONNECTION_ID / RETIRE_CONNECTION_ID datagrams. "
+                "Non-trivial = ids were retired, retire_prior_to was used, the issuer sat at the peer's limit, or the path migrated; distinct = "
+                "hash of configuration x mechanisms observed.",
+        "assumptions": SIM_ASSUME + ["s2n-quic caps the advertised active_connection_id_limit at 3, so larger peer limits are not reachable between two s2n-quic endpoints",
+                                     "zero-length client connection ids are exercised by the quiche client of C07, not here"],
+        "tiers": {"quick": [sim_job("C13", 640)], "thorough": [sim_job("C13", 12800)]},
+        "min_quick": {"evaluations": 600, "c13.cids_issued": 15000, "c13.cids_retired_by_peer": 10000, "c13.routed_packets_checked": 400_000, "c13.retire_packets_checked": 10000, "c13.at_limit": 8000},
+        "min_thorough": {"evaluations": 12000, "c13.cids_issued": 300_000},
+    },
+    "C14": {
+        "level": "exploration",
+        "rule": "two engines. (a) decode vs table (vq-c05 --check tp): seeded parameter blocks (every parameter at / inside / outside each bound, "
+                "subsets, orders, duplicates, unknown and reserved ids, bad lengths, server-only parameters in client blocks, both roles) decoded "
+                "by the real decoders and judged by the table transcribed from RFC 9000 7.4 / 18.2 (accept / reject / don't care). (b) handshake "
+                "outcome (vq-sim): a wrapper around the real TLS endpoint hands one side a rewritten block - 18 invalid cases must make the other "
+                "side fail with TRANSPORT_PARAMETER_ERROR (or a generic code), 9 valid cases (unknown / reserved ids, values exactly at a bound, "
+                "non-minimal varint, tight limits) must be accepted, and under tight limits the receiver is held to them by the C03 oracle. "
+                "Non-trivial = a block at a bound / an invalid block / limits that bound; distinct = hash of case x configuration.",
+        "assumptions": SIM_ASSUME + ["initial_max_data is not part of the transport_parameters_received event; the rewritten value is given to the limit monitor directly"],
+        "tiers": {"quick": [sim_job("C14", 432)], "thorough": [sim_job("C14", 8640)]},
+        "min_quick": {"evaluations": 400, "c14.invalid_blocks": 250, "c14.rejected_as_expected": 250, "c14.valid_blocks": 120},
+        "min_thorough": {"evaluations": 8000},
+    },
+    "C15": {
+        "level": "exploration",
+        "rule": "two engines. (a) component (vq-cc keys): two KeySets joined by a reordering / duplicating / dropping channel with an instrumented "
+                "key and tiny limits, checked after every step. (b) live (vq-sim + hook H1): connections whose 1-RTT keys become due for an update "
+                "every 500-1550 packets carry 1.5-3 MB in each direction under loss, duplication and reordering within one PTO; data must stay "
+                "intact (C01 oracle), genuine intact datagrams must decrypt (C08 oracle), generations advance by one, the two ends never differ "
+                "by more than one generation, no close with a crypto / AEAD error. Non-trivial = at least one key update happened; distinct = "
+                "hash of configuration x mechanisms observed.",
+        "assumptions": SIM_ASSUME + ["production AEAD limits (2^23 packets) are never reached; hook H1 only moves the point where an update becomes due",
+                                     "updates are kept several PTOs apart (RFC 9001 6.5) by bounding the rate with a 120 kB connection window"],
+        "tiers": {"quick": [sim_job("C15", 192)], "thorough": [sim_job("C15", 4800)]},
+        "min_quick": {"evaluations": 180, "c15.key_updates": 1000, "c08.genuine_authenticated": 1_000_000},
+        "min_thorough": {"evaluations": 4500, "c15.key_updates": 25000},
     },
     "C16": {
         "level": "exploration",
@@ -225,4 +297,63 @@ PROPS = {
         "min_quick": {"evaluations": 900, "c12.stream_frames": 500_000, "c12.retransmitted_bytes": 10_000_000, "c12.resets": 1000, "c12.close_episodes": 500},
         "min_thorough": {"evaluations": 30000, "c12.stream_frames": 10_000_000},
     },
+}
+
+
+# ---------------------------------------------------------------------------
+# component engines built as separate crates
+
+def _c05(check, iters, shards=16):
+    return bin_job("vq-c05", lambda seed, n: [["--check", check, "--seed", seed * 1000 + i, "--iters", iters] for i in range(shards)],
+                   f"vq-c05:{check} {shards}x{iters}", replay=lambda rep, path: ["--check", check, "--replay", path])
+
+
+def _c05_miri(check, iters, shards):
+    return miri_job("vq-c05", lambda seed, n: [["--check", check, "--mode", "miri", "--seed", seed * 100 + i, "--iters", iters] for i in range(shards)],
+                    f"vq-c05:{check} under miri {shards}x{iters}", ["--check", check, "--mode", "miri", "--seed", 0, "--iters", 2], timeout=2400)
+
+
+PROPS["C05"] = {
+    "level": "exploration",
+    "rule": "each evaluation is one input decoded by the real s2n-codec / s2n-quic-core decoders AND by the independent reference parser vq-wire "
+            "(RFC 9000 16-19): random bytes, grammar-generated valid frames / packets / varints / parameter blocks with boundary-biased fields "
+            "(2^6, 2^14, 2^30, 2^60, 2^62 +-), legal non-minimal varints, 1-4 byte mutations / truncations / extensions, frame sequences and "
+            "coalesced datagrams. Oracles: totality (no panic, progress on every decode, watchdog), exact round trip incl. announced encoding "
+            "size, field-by-field layout agreement, shortest-form varints from the encoders. Non-trivial = anything but plain random bytes that "
+            "both sides reject at the first byte; distinct = hash of (input class, frame/packet kind, boundary hit, mutation kind, accept/reject). "
+            "The same oracle also runs under the Miri interpreter on a reduced input set.",
+    "assumptions": ["vq-wire is the reference; disagreement classes the RFC leaves open are don't-care (listed in harness/vq-c05/README.md)",
+                    "header protection / AEAD are the null test ciphers of s2n-quic-core's testing feature: only layout is judged here"],
+    "tiers": {"quick": [_c05("codec", 250_000), _c05_miri("codec", 300, 2)],
+              "thorough": [_c05("codec", 8_000_000), _c05_miri("codec", 1500, 16)]},
+    "min_quick": {"evaluations": 3_500_000},
+    "min_thorough": {"evaluations": 100_000_000},
+}
+
+PROPS["C08"]["tiers"]["quick"].append(_c05("pn", 250_000))
+PROPS["C08"]["tiers"]["thorough"].append(_c05("pn", 8_000_000))
+PROPS["C08"]["rule"] += (" A component job (vq-c05 --check pn) drives truncate/expand over [0, 2^62) biased to the 2^8/2^16/2^24/2^32 distance "
+                         "edges for every largest_received a receiver could have and compares with the RFC 9000 A.2/A.3 transcription.")
+PROPS["C14"]["tiers"]["quick"].append(_c05("tp", 60_000))
+PROPS["C14"]["tiers"]["thorough"].append(_c05("tp", 3_000_000))
+
+
+def _interop(count):
+    return bin_job("vq-interop", lambda seed, n: [["--seed", seed, "--start", st, "--count", c] for st, c in _split(count, n)],
+                   f"vq-interop x{count}", timeout=2400, replay=lambda rep, path: ["--replay", path, "--verbose"])
+
+
+PROPS["C07"] = {
+    "level": "exploration",
+    "rule": "each evaluation is one seeded scenario in which a real s2n-quic endpoint (server or client, alternating) talks to quiche 0.29.3 / "
+            "BoringSSL inside the deterministic simulator: 1-4 streams (bidi and uni, both directions, 0..300 KB), s2n-quic windows / stream "
+            "limits from tiny to default, quiche initial_max_data from ~20 bytes up, UDP payload sizes 1200..1500, loss 0-10 %, duplication, "
+            "reordering. Both views must agree: handshake completes, every byte equals the position-keyed PRF stream, streams end at the exact "
+            "length, no transport error on either side. quiche's clock is the simulator's virtual clock (clock_gettime interposition, "
+            "self-tested at start-up; paced real-time mode as fallback). Non-trivial = data was exchanged under loss / reordering / blocking; "
+            "distinct = hash of (role, window bucket, loss class, stream mix, mechanisms observed).",
+    "assumptions": ["one independent implementation (quiche 0.29.3), QUIC v1 only", "ALPN h3 on both sides, the repository's test certificate chain"],
+    "tiers": {"quick": [_interop(64)], "thorough": [_interop(4096)]},
+    "min_quick": {"evaluations": 60},
+    "min_thorough": {"evaluations": 4000},
 }
